@@ -932,6 +932,9 @@ func genL3(r *vlib.R, tier string, emit func(string), n *int) {
 	// impatient clients on a slow healthy zone: deadlines are request-local (circuit breaker, failure state)
 	emit(fmt.Sprintf("fail l3deadline %d %d %d %d", 6+r.Intn(2), 250+r.Intn(100), 40+r.Intn(60), 1+r.Intn(2)))
 	*n--
+	// a first tree runs out of budget while collecting NS addresses; the next one must not inherit a truncated delegation
+	emit(fmt.Sprintf("fail l3trunc %d %d", 3+r.Intn(2), 4))
+	*n--
 	emit("fail l3zone s,r,s,s 0") // control: every server fails, the zone failure may be recorded
 	emit(fmt.Sprintf("fail l3zone f,%s,%s 0", vlib.Pick(r, fails), vlib.Pick(r, fails)))
 	*n -= 2
@@ -959,7 +962,7 @@ func genStateless(r *vlib.R, emit func(string), n *int, k int) {
 			soft := vlib.Pick(r, []string{"attempt", "shed"})
 			var outs []string
 			for j := 1 + r.Intn(4); j > 0; j-- {
-				outs = append(outs, vlib.Pick(r, []string{"f", "f", "e", "a", "l:" + soft, "l:" + soft, "x:" + soft, "l:" + hard, "x:w:" + hard, "x:other", "l:other"}))
+				outs = append(outs, vlib.Pick(r, []string{"f", "f", "e", "a", "a", "l:" + soft, "l:" + soft, "x:" + soft, "l:" + hard, "x:w:" + hard, "x:other", "l:other"}))
 			}
 			emit("fail nss " + strings.Join(outs, ","))
 		case 0:
